@@ -1,6 +1,7 @@
 mod absmodel;
 mod bdlparse;
 mod bvhcheck;
+mod classify;
 mod clicheck;
 mod convert;
 mod faults;
@@ -63,6 +64,7 @@ fn main() {
         "cli" => clicheck::main_cli(&args),
         "convert" => convert::main_convert(&args),
         "uvalue" => uvalue::main_uvalue(&args),
+        "classify" => classify::main_classify(&args),
         "jsonfmt" => jsonfmt::main_jsonfmt(&args),
         "bdlparse" => bdlparse::main_bdlparse(&args),
         "faults" => faults::main_faults(&args),
